@@ -185,7 +185,15 @@ def declare_c20(E):
 
 def declare_c25(E):
     declare(E)
-    E.declare_ghost(delivered="bytes")
+    E.declare_ghost(delivered="bytes", wait_budget="float")
+    # a timeout bounds the WHOLE wait for window, however often the waiter is woken without the window opening: ghost
+    # budget = what is left of self.timeout; every Condition.wait(t) must have t <= budget (obligation raised by the wait)
+    c = E.contracts[C + "_wait_for_send_window"]
+    c["requires"] = dict(c["requires"], the_budget_is_the_timeout="True if isnone(self.timeout) else ghost('wait_budget') == self.timeout")
+    lc = dict(c["loops"][0])
+    lc["inv"] = list(lc["inv"]) + ["True if isnone(local('timeout', self.timeout)) else local('timeout', self.timeout) <= ghost('wait_budget')"]
+    lc["havoc_ghosts"] = list(lc["havoc_ghosts"]) + ["wait_budget"]
+    c["loops"] = {0: lc}
     RA = {"OSError": "True", "TimeoutError": "True", "EOFError": "True", "SSHException": "True"}
     for name in ("send", "send_stderr"):
         E.contract(C + name, params={"s": "bytes"},
